@@ -31,8 +31,18 @@ THEOREMS = [
     "RedunModel.Promise.Reach.execAll",
 ]
 THEOREMS += [
+    "RedunModel.C13.collector_created",
+    "RedunModel.C13.collector_stable",
     "RedunModel.C13.order_refuted_witness",
     "RedunModel.C13.order_refuted_registered_during_notification",
+    "RedunModel.C13.order_partial",
+    "RedunModel.C13.lists_in_registration_order",
+    "RedunModel.C13.during_recorded",
+    "RedunModel.C13.not_waiting_when_idle",
+    "RedunModel.C13.chained_plain_value",
+    "RedunModel.C13.chained_raise",
+    "RedunModel.C13.adopts_partial_registers",
+    "RedunModel.C13.adopts_partial_effect",
 ]
 TRUSTED = [
     "modelled, not verified: Python's synchronous call/return discipline (every call frame of do_resolve/_notify/then/"
@@ -68,7 +78,12 @@ LEVEL_TEXT = ("Lean theorems over ALL histories (any operation sequence, any nes
               "(every then() registration: the callback of the matching branch runs exactly once, only after settlement, with "
               "the promise's value; the other one never), all_fulfills/all_rejects/all_pending (Promise.all: results in input "
               "order iff all inputs fulfilled, else rejected with the first rejection its fail callback observed, else pending), "
-              "wait_fulfills/wait_pending. Refuted on the current code (proved counter-example, also replayed on the real code "
+              "wait_fulfills/wait_pending (collector_created/collector_stable tie the records to the calls). Partial — "
+              "order_partial (a then() made while no notification loop of its promise has callbacks waiting runs after all "
+              "earlier registrations of that promise; lists and loops are kept in registration order), adopts_partial_* + "
+              "chained_plain_value/chained_raise (wrapper registers one more then() on a returned promise whose callback is "
+              "q.do_resolve/q.do_reject; the end-to-end 'chained promise ends with the adopted outcome' is not proved, only "
+              "checked by the tie). Refuted on the current code (proved counter-example, also replayed on the real code "
               "on every run): order_refuted_registered_during_notification — 'in registration order' fails when then() is called "
               "on a promise from inside one of its own callbacks. Tie to the code: differential run of model driver vs real "
               "class on generated histories + the property's oracle on the real class.")
